@@ -212,7 +212,7 @@ CLAIMED = {
              "sentence the report prints for it, with the numeric limits read from the generated report text (stride, dilated kernel, filter, "
              "tensor dimension, batch, broadcast, depth multiplier, transpose convolution strides and shapes, resize scaling, half pixel centres, "
              "arg max, mean products/width/depth/axes, pad shape, strided slice strides and ranges, transpose permutations, concatenation axis and "
-             "dimensions, split axis and divisibility, convolution groups, matching shapes). Round 9 addition: 25 further single-sentence constraints (c_simple) with type/operator lists read from the generated report 13 constraints about facts (c_facts) and 9 LSTM structure constraints (c_lstm): 104 of 109 constraint functions decided individually. Round 7-8 additions: 12 element-type constraints over all type combinations; rewrites that follow the check in the same list never see a rejected operator; fixup_pool_strides only rewrites single-window pools; the 40-bit bias constraint equals the signed range of the scale record; fuse_activation_function_with_prev never touches an operator that stays on the CPU. Round 9 addition: cpu_operands - real reader step (parse_operator) then real writer preparation (TFLiteSerialiser.__init__) for every operator kind: the operands to be written are the operands read.",
+             "dimensions, split axis and divisibility, convolution groups, matching shapes). Round 9 addition: 25 further single-sentence constraints (c_simple) with type/operator lists read from the generated report 13 constraints about facts (c_facts) 9 LSTM structure constraints (c_lstm) and the FULLY_CONNECTED 2D view (c_fc_2d): 105 of 109 constraint functions decided individually. Round 7-8 additions: 12 element-type constraints over all type combinations; rewrites that follow the check in the same list never see a rejected operator; fixup_pool_strides only rewrites single-window pools; the 40-bit bias constraint equals the signed range of the scale record; fuse_activation_function_with_prev never touches an operator that stays on the CPU. Round 9 addition: cpu_operands - real reader step (parse_operator) then real writer preparation (TFLiteSerialiser.__init__) for every operator kind: the operands to be written are the operands read.",
         note="Partial: what happens to the operator after the decision (graph rewriting, pass packing, subgraph extraction) is outside, as are "
              "constraints on tensor values (weight sums, 40-bit bias, quantisation scales), LSTM structure constraints and TOSA. The committed "
              "SUPPORTED_OPS.md is not the oracle (it is older than the code); the property speaks of the report Vela generates. Trusted: z3, symx "
